@@ -114,70 +114,59 @@ def run(ctx):
     if not (DIFF_UNARY - have_un) and not (DIFF_BINARY - have_bin):
         chk.ok("R05.3", "key set", "unary %s; binary %s" % (sorted(have_un), sorted(have_bin)), loc(body["span"]))
 
-    # ---- R05.4 missing rule => Err
+    # ---- R05.4 missing rule => Err  (shape-independent: analysis/dispatch.py)
     outer = fb.find_bodies(lambda b: b["kind"] == "Fn" and b["path"].endswith("partial::partial_derivative_outer"))
     inner = fb.find_bodies(lambda b: b["kind"] == "Fn" and b["path"].endswith("partial::partial_derivative_inner"))
     if len(outer) != 1 or len(inner) != 1:
         chk.violation("R05.4", "anchor", "partial_derivative_outer/inner not found")
     else:
-        # outer: the mapping closure looks the rule up and calls it; both lookups go through ok_or_else(..)?
-        okc = 0
-        for cp in fb.closures_of(outer[0]["path"]):
-            cb = fb.bodies[cp]
-            if not any(t["func"]["k"] == "ptr" for _, t in mir.calls(cb)):
-                continue
+        from analysis import dispatch
+        KEEP = {"partial_deepex", "partial_derivative_inner", "partial_derivative_outer", "partial_derisval", "partial_deri_per_operand",
+                "make_partial_derivative_ops"}
 
-            class P(Policy):
-                max_depth = 2
-            ps = Interp(fb, P()).run(cb, [Sym("env"), Sym("item")])
-            oks = [p for p in ps if p.status == "return" and isinstance(p.result, App) and p.result.fn == "callptr"]
-            others = [p for p in ps if p.status == "return" and not (isinstance(p.result, App) and p.result.fn == "callptr")]
-            loops = [p for p in ps if p.status == "unrecognised" and (p.note or "").startswith("loop")]
-            # the closure strips unary operators in a loop *after* both lookups: paths that enter the loop
-            # must already have passed both `?`; they are not needed to decide this rule
-            loops_ok = all(sum(1 for d in p.decisions if d[0] == "try" and d[2] == "ok") >= 2 for p in loops)
-            if not oks or not loops_ok or any(p.status not in ("return", "unreachable") and p not in loops for p in ps):
-                chk.unrecognised("R05.4", "outer-shape", "outer lookup closure not recognised", loc(cb["span"]))
-                continue
-            f = show(oks[0].result.args[0])
-            pat = r"^ok\(std::option::Option::<T>::ok_or_else\(\.unary_outer_op\(ok\(std::option::Option::<T>::ok_or_else\(std::iter::Iterator::find\("
-            errs_ok = all(isinstance(p.result, Variant) and p.result.variant == "Err" for p in others)
-            if re.match(pat, f) and errs_ok and len(others) >= 2:
-                okc += 1
-                chk.ok("R05.4", "outer: failed lookup / absent unary rule => Err", "%d error paths" % len(others), loc(cb["span"]))
-            else:
-                chk.violation("R05.4", "outer-missing", "outer derivative: a missing rule is not turned into an error (%s)" % f[:120], loc(cb["span"]))
-        if okc == 0:
-            chk.unrecognised("R05.4", "outer-none", "no rule-lookup closure found in partial_derivative_outer", loc(outer[0]["span"]))
-        ib = dom.refine(inner[0])
-        org = dom.Origins(ib)
-        found = False
-        for bi in sorted(mir.normal_blocks(ib)):
-            t = ib["blocks"][bi]["term"]
-            if t["k"] == "switch" and re.match(r"^discr\(param:missing_op_mode\)$|^discr\(param:\w*mode\w*\)$", org.op_term(t["discr"])):
-                found = True
-                err_discr = None
-                a = fb.adts.get("expression::partial::MissingOpMode")
-                if a:
-                    for v in a["variants"]:
-                        if v["name"] == "Error":
-                            err_discr = int(v["discr"])
-                edges = dom.switch_edges(ib, bi)
-                named = {lab for lab, _ in edges if lab != "otherwise"}
-                tgt = [b for lab, b in edges if lab == err_discr]
-                if not tgt:
-                    tgt = [b for lab, b in edges if lab == "otherwise" and ib["blocks"][b]["term"]["k"] != "unreachable"]
-                heads = {h for (_, h) in mir.back_edges(ib)}
-                if tgt:
-                    ok, why = dom.reaches_only_err(ib, tgt[0], heads)
-                    if ok:
-                        chk.ok("R05.4", "inner: MissingOpMode::Error => Err", "", loc(t["span"]))
-                    else:
-                        chk.violation("R05.4", "inner-missing", "inner derivative: missing binary rule under MissingOpMode::Error does not end in an error (%s)" % why, loc(t["span"]))
+        class PD(Policy):
+            max_depth = 5
+            loop_mode = "widen"
+
+            def inline(self, fn, args, interp, path):
+                return fn["path"].startswith("expression::partial::") and fn.get("name") not in KEEP
+
+        def unit_args(b, mode=None):
+            out = []
+            for i in range(b["arg_count"]):
+                ty = b["locals"][i + 1]["ty"]
+                if mode and ty.endswith("partial::MissingOpMode"):
+                    out.append(Variant("expression::partial::MissingOpMode", mode, {}))
                 else:
-                    chk.unrecognised("R05.4", "inner-edge", "no edge for MissingOpMode::Error", loc(t["span"]))
-        if not found:
-            chk.unrecognised("R05.4", "inner-none", "no dispatch on the missing-operator mode found", loc(inner[0]["span"]))
+                    out.append(Sym("a%d" % i))
+            return out
+
+        def decide(label, root, field, mode):
+            units = 0
+            for b in [root] + [fb.bodies[c] for c in fb.closures_of(root["path"])]:
+                r = dispatch.analyse(fb, b, unit_args(b, mode), field, PD())
+                if r.calls == 0:
+                    continue
+                units += 1
+                for k, txt in r.unrecognised:
+                    chk.unrecognised("R05.4", "%s-shape" % label, "%s (%s)" % (txt, k), loc(b["span"]))
+                seen = set()
+                for k, txt in r.problems:
+                    if (k, txt) in seen:
+                        continue
+                    seen.add((k, txt))
+                    chk.violation("R05.4", "%s-%s" % (label, {"skip": "missing", "exit": "missing"}.get(k, k)),
+                                  "%s derivative%s: %s" % (label, " under MissingOpMode::Error" if mode else "", txt), loc(b["span"]))
+                if not r.unrecognised and not r.problems:
+                    chk.ok("R05.4", "%s: every completed operator step applies the rule selected by name; otherwise Err" % label,
+                           "%s form, %d paths, %d rule calls" % (r.form, r.paths, r.calls), loc(b["span"]))
+            if units == 0:
+                chk.unrecognised("R05.4", "%s-none" % label, "no call of a looked-up rule found in %s" % root["path"], loc(root["span"]))
+        decide("outer", outer[0], ".unary_outer_op", None)
+        decide("inner", inner[0], ".bin_op", "Error")
+        has_mode = any(l["ty"].endswith("partial::MissingOpMode") for l in inner[0]["locals"][1:inner[0]["arg_count"] + 1])
+        if not has_mode:
+            chk.unrecognised("R05.4", "inner-none", "partial_derivative_inner takes no MissingOpMode", loc(inner[0]["span"]))
 
     # ---- R05.5 partial_deepex = inner * outer
     pd = fb.find_bodies(lambda b: b["kind"] == "Fn" and b["path"].endswith("partial::partial_deepex"))
